@@ -263,15 +263,23 @@ P('C14', claimed=True, level='other', contracts=['seq_event_keys'], drivers=['vf
               'degree_to_key / spo / octave_ratio): EventDict.__call__ (given value, else key function called '
               'with the event, else default) and every chain function of PitchKeys, DurationKeys and '
               'AmplitudeKeys equals the documented chain written as a spec function, with the documented '
-              'precedence between source keys. Bounded: key resolution compared with the documented chains '
+              'precedence between source keys; NoteEvent.play sends exactly one /s_new bundle at the server latency '
+              'with the instrument name, ONE fresh node id, the add action number, the target group and the message '
+              'parameters, then - iff the event sends a gate - one gate-off bundle for the same node at latency + '
+              'sustain, and marks the event playing; ServerKeys._get_msg_params yields (name, the event\'s value) for '
+              'exactly the controls of the description that the event defines (cached parameters reused unless '
+              'playing, defaults without a description, gate dropped iff gated and not kept); the player step '
+              'EventStreamPlayer._play_and_delta plays once iff not muted and not a rest and returns the delta as a '
+              'number. Bounded: key resolution compared with the documented chains '
               'for all key subsets x 3 values x 3 scales on the real Scale/Tuning classes; played events and '
               'event stream players checked on the NRT score (one /s_new at logical time + latency with fresh '
               'id and the defined controls, gate-off at + sustain iff gated, rests send nothing, timelines of '
               'Pbind/Pmono/Ppar/Pchain/Pdur compositions).'),
   level_note=('Assumed: midicps/cpsmidi/log2/dbamp/ampdb as uninterpreted functions (C15 covers them), floats '
               'as reals, the event abstracted to has/own/resolved values per key with the lookup contract as '
-              'axiom. Event play, message parameter selection and the stream player are dynamic dictionary '
-              'dispatch: bounded only. Modifier-only events are left unspecified.'))
+              'axiom. In the play/parameter contracts key resolution, conversions and the server address are ghost '
+              'calls. The generator loop of the stream player, Ppar/Pdur timelines and the score are bounded only. '
+              'Modifier-only events are left unspecified.'))
 
 P('C15', claimed=True, level='other',
   contracts=['base_builtins', 'base_builtins_wrappers', 'synth_specialindex'], drivers=['vf.drivers.C15'],
